@@ -858,6 +858,13 @@ impl Env {
                     self.push(Ev::NbTxRequest { pw: cfg.pw, rf, bytes: buf.to_vec(), outcome: "Err".into(), pos });
                     return Err(SimRadioError::Injected);
                 }
+                if self.txn.nb_tx_declined != 0 {
+                    // neither an error nor a transmission: the radio declined
+                    let idle = self.txn.nb_tx_declined == 1;
+                    self.bump("fault.nb-tx-declined");
+                    self.push(Ev::NbTxRequest { pw: cfg.pw, rf, bytes: buf.to_vec(), outcome: if idle { "Idle (declined)".into() } else { "Rxing (declined)".into() }, pos });
+                    return Ok(if idle { nradio::Response::Idle } else { nradio::Response::Rxing });
+                }
                 if self.txn.nb_deferred_tx {
                     self.nb_deferred_tx_pending = true;
                     self.push(Ev::NbTxRequest { pw: cfg.pw, rf, bytes: buf.to_vec(), outcome: "Txing".into(), pos });
